@@ -129,9 +129,10 @@ class Program:
                     parts = parts[:-1]
                 name = ".".join(parts)
                 # locals are alpha-renamed to the reviewed tree's names (sa/canon.py): a renamed variable changes no verdict
-                canon.unelse(tree)          # canonical control-flow form (no else after a leaving branch)
                 canon.normalise_comparisons(tree)   # not (a in b) == a not in b, ...
+                canon.normalise_ifs(tree)   # canonical if/else form: no else after a leaving branch, positive tests
                 canon.canonicalise(tree, name)
+                canon.assign_order(tree)
                 mod = Module(name, path, rel, tree, src, is_pkg)
                 self.modules[name] = mod
                 self.by_relpath[rel] = mod
